@@ -12,16 +12,31 @@ import (
 type HeaderKV struct {
 	Name   string   `json:"name"`
 	Values []string `json:"values"`
+	// Raw: stored under the name exactly as written (direct map assignment, e.g. a map literal
+	// with a non-canonical key) instead of through Header.Add. Only used for harmless names
+	// that the verifiers never look up with Header.Get.
+	Raw bool `json:"raw,omitempty"`
 }
 
 // BuildHeader inserts the fields with http.Header.Add (the repository's own calling
 // convention: canonical keys).
 func BuildHeader(kvs []HeaderKV) http.Header {
 	h := http.Header{}
+	keyOf := map[string]string{} // folded name -> map key in use (never two keys for one folded name)
 	for _, kv := range kvs {
-		for _, v := range kv.Values {
-			h.Add(kv.Name, v)
+		if len(kv.Values) == 0 {
+			continue
 		}
+		f := strings.ToLower(kv.Name)
+		key, seen := keyOf[f]
+		if !seen {
+			key = http.CanonicalHeaderKey(kv.Name)
+			if kv.Raw {
+				key = kv.Name
+			}
+			keyOf[f] = key
+		}
+		h[key] = append(h[key], kv.Values...)
 	}
 	return h
 }
@@ -127,8 +142,22 @@ func FieldValue(t *rapid.T, label string) string {
 func Headers(t *rapid.T, label string, max int) []HeaderKV {
 	n := rapid.IntRange(0, max).Draw(t, label+"-n")
 	var out []HeaderKV
+	folded := map[string]bool{}
+	rawFolded := map[string]bool{}
 	for i := 0; i < n; i++ {
 		kv := HeaderKV{Name: HeaderName(t, label+"-name")}
+		f := strings.ToLower(kv.Name)
+		// a raw (non-canonical) map key must not share its folded name with another entry:
+		// two map keys folding to one name are a duplicate CBOR key, which the encoders refuse
+		if rawFolded[f] {
+			continue
+		}
+		if !folded[f] && rapid.IntRange(0, 3).Draw(t, label+"-raw") == 0 {
+			kv.Raw = true
+			kv.Name = rapid.SampledFrom([]string{strings.ToLower(kv.Name), strings.ToUpper(kv.Name), kv.Name}).Draw(t, label+"-rawcase")
+			rawFolded[f] = true
+		}
+		folded[f] = true
 		nv := 1
 		if rapid.IntRange(0, 3).Draw(t, label+"-multi") == 0 {
 			nv = rapid.IntRange(2, 3).Draw(t, label+"-nv")
